@@ -79,34 +79,20 @@ Proof. exact layer_refusals. Qed.
 Print Assumptions C13_refusals_layer.
 
 (* mixed overlays in terms of the files on disk: any non-metadata file next to any patch file is
-   refused — when the overlay directory does not lie below a directory named .agentpack/.git *)
-Theorem C13_refusals_mixed_partial : forall ap l out r c,
-  l_exists l = true -> l_meta l <> MInvalid -> l_abs_meta l = false ->
+   refused, wherever the overlay directory lives (list_files filters on the relative path) *)
+Theorem C13_refusals_mixed : forall ap l out r c,
+  l_exists l = true -> l_meta l <> MInvalid ->
   In (r, c) (l_files l) -> is_meta r = false -> patch_entries (l_files l) <> [] ->
   apply_layer ap l out = Err EConfigInvalid.
 Proof.
-  intros ap l out r c He Hm Ha Hin Hr Hp.
+  intros ap l out r c He Hm Hin Hr Hp.
   destruct (layer_refusals ap l out He) as [_ H]. destruct (H Hm) as [H1 _]. apply H1.
-  - unfold has_overrides. rewrite Ha.
-    pose proof (list_files_rel_nonempty (l_files l) r c Hin Hr) as N.
-    destruct (list_files false (l_files l)); [contradiction|reflexivity].
+  - unfold has_overrides.
+    pose proof (list_files_nonempty (l_files l) r c Hin Hr) as N.
+    destruct (list_files (l_files l)); [contradiction|reflexivity].
   - unfold has_patches. destruct (patch_entries (l_files l)); [contradiction|reflexivity].
 Qed.
-Print Assumptions C13_refusals_mixed_partial.
-
-(* ... and without that hypothesis the statement is refuted (DESIGN F10, class K13d): list_files
-   filters on the absolute path, so below ~/.agentpack the stray override file goes unnoticed *)
-Theorem C13_refusals_mixed_refuted :
-  exists ap l lower out r c, l_exists l = true /\ l_meta l <> MInvalid /\ In (r, c) (l_files l) /\
-    is_meta r = false /\ patch_entries (l_files l) <> [] /\ apply_layer ap l lower = Ok out.
-Proof.
-  destruct mixed_undetected_abs as [_ [out [H _]]].
-  exists (fun _ _ : str => Some (s "L1")), (mkLayer true true (MKind KPatch) wit_mixed_files),
-         [([s "f.txt"], Text (s "l1")); ([s "g.txt"], Text (s "g1"))], out, [s "g.txt"], (Text (s "over")).
-  split; [reflexivity|]. split; [discriminate|].
-  split; [left; reflexivity|]. split; [reflexivity|]. split; [vm_compute; discriminate|exact H].
-Qed.
-Print Assumptions C13_refusals_mixed_refuted.
+Print Assumptions C13_refusals_mixed.
 
 (* one patch file: bad relpath / missing target / non-UTF-8 target / non-UTF-8 patch / header
    not accepted -> E_CONFIG_INVALID; oracle failure -> E_OVERLAY_PATCH_APPLY_FAILED *)
@@ -259,19 +245,19 @@ Definition ex_ap : str -> str -> option str :=
 Definition ex_up : files :=
   [([s "f.txt"], Text (s "l1")); ([s "g.txt"], Text (s "g-up")); ([s "h.txt"], Text (s "h-up"));
    ([s "k.txt"], Text (s "k-up")); ([dot_git; s "config"], Text (s "meta"))].
-Definition ex_g := mkLayer true false MAbsent
+Definition ex_g := mkLayer true MAbsent
   [([s "g.txt"], Text (s "g-glob")); ([s "h.txt"], Text (s "h-glob")); ([s "k.txt"], Text (s "k-glob"));
    ([dot_agentpack; s "baseline.json"], Text (s "{}"))].
-Definition ex_m := mkLayer true false (MKind KDir)
+Definition ex_m := mkLayer true (MKind KDir)
   [([s "h.txt"], Text (s "h-mach")); ([s "k.txt"], Text (s "k-mach")); ([s "new.txt"], Text (s "n-mach"))].
-Definition ex_p := mkLayer true false (MKind KDir) [([s "k.txt"], Text (s "k-proj"))].
+Definition ex_p := mkLayer true (MKind KDir) [([s "k.txt"], Text (s "k-proj"))].
 Definition ex_patch_text : str := s "--- a/f.txt
 +++ b/f.txt
 @@ -1 +1 @@
 -l1
 +L1
 ".
-Definition ex_pl (body : str) := mkLayer true false (MKind KPatch)
+Definition ex_pl (body : str) := mkLayer true (MKind KPatch)
   [([dot_agentpack; c_patches; s "f.txt.patch"], Text body)].
 
 (* hypotheses of C13_precedence are met by a run where every layer wins somewhere *)
@@ -300,17 +286,17 @@ Example C13_nonvacuous_refusals :
 +L1
 " in
   (* oracle failure: the global layer replaced the text the patch was made for *)
-  compose ex_ap ex_up [mkLayer true false MAbsent [([s "f.txt"], Text (s "changed"))]; ex_pl ex_patch_text]
+  compose ex_ap ex_up [mkLayer true MAbsent [([s "f.txt"], Text (s "changed"))]; ex_pl ex_patch_text]
     = Err EPatchApplyFailed /\
   compose ex_ap ex_up [ex_pl bad_hdr] = Err EConfigInvalid /\
   compose ex_ap ex_up [ex_pl (s "")] = Err EConfigInvalid /\
-  compose ex_ap ex_up [mkLayer true false (MKind KPatch)
+  compose ex_ap ex_up [mkLayer true (MKind KPatch)
                          [([dot_agentpack; c_patches; s "nope.txt.patch"], Text ex_patch_text)]] = Err EConfigInvalid /\
-  compose ex_ap ex_up [mkLayer true false (MKind KPatch)
+  compose ex_ap ex_up [mkLayer true (MKind KPatch)
                          (([s "g.txt"], Text (s "x")) :: l_files (ex_pl ex_patch_text))] = Err EConfigInvalid /\
-  compose ex_ap ex_up [mkLayer true false (MKind KDir) (l_files (ex_pl ex_patch_text))] = Err EConfigInvalid /\
-  compose ex_ap ex_up [mkLayer true false MInvalid []] = Err EConfigInvalid /\
-  compose ex_ap ex_up [mkLayer true false MAbsent [([s "g.txt"; s "x"], Text (s "x"))]] = Err EUnexpected.
+  compose ex_ap ex_up [mkLayer true (MKind KDir) (l_files (ex_pl ex_patch_text))] = Err EConfigInvalid /\
+  compose ex_ap ex_up [mkLayer true MInvalid []] = Err EConfigInvalid /\
+  compose ex_ap ex_up [mkLayer true MAbsent [([s "g.txt"; s "x"], Text (s "x"))]] = Err EUnexpected.
 Proof. cbv zeta. repeat split; vm_compute; reflexivity. Qed.
 
 (* a hash oracle with SHA-256's real values on two ids: the premises of C13_key_safe and
